@@ -360,9 +360,17 @@ pub fn run(tier: Tier) -> i32 {
     let model = Model {
         ops: std::sync::Arc::new(ops.clone()),
     };
-    let depths: &[u16] = tier.pick(&[5], &[5, 6, 7]);
-    let cap = tier.pick(40_000_000, 400_000_000);
-    let res = e2::run("C13", model, depths, cap, &mut acc);
+    let depths: &[u16] = tier.pick(&[5], &[6]);
+    let cap = tier.pick(40_000_000, 600_000_000);
+    let mut res = e2::run_opts("C13", model, depths, cap, tier.thorough(), &mut acc);
+    if tier.thorough() && acc.viols.is_empty() {
+        // one level deeper over the quick-tier alphabet
+        let small = alphabet(Tier::Quick);
+        let model = Model { ops: std::sync::Arc::new(small) };
+        let r = e2::run_opts("C13", model, &[7, 8], 900_000_000, true, &mut acc);
+        res.per_depth.extend(r.per_depth);
+        res.capped_at_depth = res.capped_at_depth.or(r.capped_at_depth);
+    }
     // every generated transition is a real call compared with the reference
     acc.evals += acc.transitions;
     // distinct non-trivial: counted as distinct canonical states (each holds a
